@@ -2855,8 +2855,15 @@ impl<'store> QueryIter<'store> {
             &Constraint::Union(ref subconstraints) => {
                 let mut handles: Handles<'store, Annotation> = Handles::new_empty(store);
                 for subconstraint in subconstraints {
-                    let mut iter = self.init_state_annotations(Some(subconstraint))?;
-                    handles.union(&iter.to_handles(store));
+                    match self.init_state_annotations(Some(subconstraint)) {
+                        Ok(mut iter) => handles.union(&iter.to_handles(store)),
+                        Err(
+                            StamError::NotFoundError(..) | StamError::VariableNotFoundError(..),
+                        ) => {
+                            //these types of errors can be ignored in a UNION, another subconstraint may succeed
+                        }
+                        Err(e) => return Err(e),
+                    }
                 }
                 Box::new(iter.filter_any(handles))
             }
@@ -2961,8 +2968,15 @@ impl<'store> QueryIter<'store> {
             Some(&Constraint::Union(ref subconstraints)) => {
                 let mut handles: Handles<'store, AnnotationData> = Handles::new_empty(store);
                 for subconstraint in subconstraints {
-                    let mut iter = self.init_state_data(Some(subconstraint))?;
-                    handles.union(&iter.to_handles(store));
+                    match self.init_state_data(Some(subconstraint)) {
+                        Ok(mut iter) => handles.union(&iter.to_handles(store)),
+                        Err(
+                            StamError::NotFoundError(..) | StamError::VariableNotFoundError(..),
+                        ) => {
+                            //these types of errors can be ignored in a UNION, another subconstraint may succeed
+                        }
+                        Err(e) => return Err(e),
+                    }
                 }
                 Box::new(handles.into_items())
             }
@@ -3019,8 +3033,15 @@ impl<'store> QueryIter<'store> {
             &Constraint::Union(ref subconstraints) => {
                 let mut handles: Handles<'store, AnnotationData> = Handles::new_empty(store);
                 for subconstraint in subconstraints {
-                    let mut iter = self.init_state_data(Some(subconstraint))?;
-                    handles.union(&iter.to_handles(store));
+                    match self.init_state_data(Some(subconstraint)) {
+                        Ok(mut iter) => handles.union(&iter.to_handles(store)),
+                        Err(
+                            StamError::NotFoundError(..) | StamError::VariableNotFoundError(..),
+                        ) => {
+                            //these types of errors can be ignored in a UNION, another subconstraint may succeed
+                        }
+                        Err(e) => return Err(e),
+                    }
                 }
                 Box::new(iter.filter_any(handles))
             }
@@ -3090,8 +3111,15 @@ impl<'store> QueryIter<'store> {
             Some(&Constraint::Union(ref subconstraints)) => {
                 let mut handles: Handles<'store, DataKey> = Handles::new_empty(store);
                 for subconstraint in subconstraints {
-                    let mut iter = self.init_state_keys(Some(subconstraint))?;
-                    handles.union(&iter.to_handles(store));
+                    match self.init_state_keys(Some(subconstraint)) {
+                        Ok(mut iter) => handles.union(&iter.to_handles(store)),
+                        Err(
+                            StamError::NotFoundError(..) | StamError::VariableNotFoundError(..),
+                        ) => {
+                            //these types of errors can be ignored in a UNION, another subconstraint may succeed
+                        }
+                        Err(e) => return Err(e),
+                    }
                 }
                 Box::new(handles.into_items())
             }
@@ -3121,8 +3149,15 @@ impl<'store> QueryIter<'store> {
             &Constraint::Union(ref subconstraints) => {
                 let mut handles: Handles<'store, DataKey> = Handles::new_empty(store);
                 for subconstraint in subconstraints {
-                    let mut iter = self.init_state_keys(Some(subconstraint))?;
-                    handles.union(&iter.to_handles(store));
+                    match self.init_state_keys(Some(subconstraint)) {
+                        Ok(mut iter) => handles.union(&iter.to_handles(store)),
+                        Err(
+                            StamError::NotFoundError(..) | StamError::VariableNotFoundError(..),
+                        ) => {
+                            //these types of errors can be ignored in a UNION, another subconstraint may succeed
+                        }
+                        Err(e) => return Err(e),
+                    }
                 }
                 Box::new(iter.filter_any(handles))
             }
@@ -3165,8 +3200,15 @@ impl<'store> QueryIter<'store> {
             Some(&Constraint::Union(ref subconstraints)) => {
                 let mut handles: Handles<'store, AnnotationDataSet> = Handles::new_empty(store);
                 for subconstraint in subconstraints {
-                    let mut iter = self.init_state_datasets(Some(subconstraint))?;
-                    handles.union(&iter.to_handles(store));
+                    match self.init_state_datasets(Some(subconstraint)) {
+                        Ok(mut iter) => handles.union(&iter.to_handles(store)),
+                        Err(
+                            StamError::NotFoundError(..) | StamError::VariableNotFoundError(..),
+                        ) => {
+                            //these types of errors can be ignored in a UNION, another subconstraint may succeed
+                        }
+                        Err(e) => return Err(e),
+                    }
                 }
                 Box::new(handles.into_items())
             }
@@ -3208,8 +3250,15 @@ impl<'store> QueryIter<'store> {
             &Constraint::Union(ref subconstraints) => {
                 let mut handles: Handles<'store, AnnotationDataSet> = Handles::new_empty(store);
                 for subconstraint in subconstraints {
-                    let mut iter = self.init_state_datasets(Some(subconstraint))?;
-                    handles.union(&iter.to_handles(store));
+                    match self.init_state_datasets(Some(subconstraint)) {
+                        Ok(mut iter) => handles.union(&iter.to_handles(store)),
+                        Err(
+                            StamError::NotFoundError(..) | StamError::VariableNotFoundError(..),
+                        ) => {
+                            //these types of errors can be ignored in a UNION, another subconstraint may succeed
+                        }
+                        Err(e) => return Err(e),
+                    }
                 }
                 Box::new(iter.filter_any(handles))
             }
@@ -3599,8 +3648,15 @@ impl<'store> QueryIter<'store> {
             Some(&Constraint::Union(ref subconstraints)) => {
                 let mut handles: Handles<'store, TextResource> = Handles::new_empty(store);
                 for subconstraint in subconstraints {
-                    let mut iter = self.init_state_resources(Some(subconstraint))?;
-                    handles.union(&iter.to_handles(store));
+                    match self.init_state_resources(Some(subconstraint)) {
+                        Ok(mut iter) => handles.union(&iter.to_handles(store)),
+                        Err(
+                            StamError::NotFoundError(..) | StamError::VariableNotFoundError(..),
+                        ) => {
+                            //these types of errors can be ignored in a UNION, another subconstraint may succeed
+                        }
+                        Err(e) => return Err(e),
+                    }
                 }
                 Box::new(handles.into_items())
             }
@@ -3681,8 +3737,15 @@ impl<'store> QueryIter<'store> {
             &Constraint::Union(ref subconstraints) => {
                 let mut handles: Handles<'store, TextResource> = Handles::new_empty(store);
                 for subconstraint in subconstraints {
-                    let mut iter = self.init_state_resources(Some(subconstraint))?;
-                    handles.union(&iter.to_handles(store));
+                    match self.init_state_resources(Some(subconstraint)) {
+                        Ok(mut iter) => handles.union(&iter.to_handles(store)),
+                        Err(
+                            StamError::NotFoundError(..) | StamError::VariableNotFoundError(..),
+                        ) => {
+                            //these types of errors can be ignored in a UNION, another subconstraint may succeed
+                        }
+                        Err(e) => return Err(e),
+                    }
                 }
                 Box::new(iter.filter_any(handles))
             }
